@@ -297,3 +297,41 @@ Proof.
   split; [vm_compute; now left|].
   intros r [<-|[]]. vm_compute. discriminate.
 Qed.
+
+(* ---------- without the single-section premise: offered in some section of the kind ---------- *)
+
+Definition offered_of_kind (k : kind) (secs : list rsection) : list codec :=
+  flat_map (fun s => if kind_eqb (fst s) k then snd s else []) secs.
+
+Lemma kind_eqb_refl : forall k, kind_eqb k k = true.
+Proof. destruct k; reflexivity. Qed.
+
+Lemma kind_eqb_eq : forall a b, kind_eqb a b = true -> a = b.
+Proof. destruct a, b; cbn; congruence. Qed.
+
+Lemma offered_of_kind_in : forall k secs r,
+  In r (offered_of_kind k secs) <-> exists rcs, In (k, rcs) secs /\ In r rcs.
+Proof.
+  intros k secs r. unfold offered_of_kind. rewrite in_flat_map. split.
+  - intros [[k' rcs] [Hs Hr]]. cbn [fst snd] in Hr.
+    destruct (kind_eqb k' k) eqn:Hk; [|destruct Hr]. apply kind_eqb_eq in Hk. subst. eauto.
+  - intros [rcs [Hs Hr]]. exists (k, rcs). split; [assumption|]. cbn [fst snd].
+    now rewrite kind_eqb_refl.
+Qed.
+
+Lemma answer_codecs_offered_somewhere : forall video audio multi secs e' res k prefs o,
+  k = KVideo \/ k = KAudio ->
+  update_from_remote (new_engine video audio multi) secs = (e', res) ->
+  (prefs = [] \/ (forall p, In p prefs -> c_pt p = 0%N)) ->
+  In o (get_codecs (negotiated_of e' k) prefs) ->
+  exists rcs r, In (k, rcs) secs /\ In r rcs /\ c_pt r = c_pt o /\ compatible o r.
+Proof.
+  intros video audio multi secs e' res k prefs o Hk H Hguard Ho.
+  assert (Hg : grounded_list (offered_of_kind k secs) (negotiated_of e' k)).
+  { intros m Hm. destruct (negotiated_offered _ _ _ _ _ _ _ _ Hk H Hm) as [rcs [r [Hs [Hr Hsame]]]].
+    exists r. split; [|assumption]. apply offered_of_kind_in. eauto. }
+  destruct (get_codecs_offered (offered_of_kind k secs) _ prefs o Hg) as [r [Hr [Hpt Hc]]].
+  - intros p Hp. left. destruct Hguard as [->|Hz]; [destruct Hp|now apply Hz].
+  - exact Ho.
+  - apply offered_of_kind_in in Hr. destruct Hr as [rcs [Hs Hr]]. exists rcs, r. auto.
+Qed.
